@@ -248,7 +248,7 @@ func jobsToCover(each func(func(*vc.Obligation, *vc.FuncResult))) []*coverJob {
 				continue
 			}
 			co := &vc.Obligation{ID: fmt.Sprintf("%s~cover%d", o.ID, i), Kind: "cover", Func: o.Func, Pkg: o.Pkg, Mark: o.Mark, Goals: []vc.Goal{{Reach: g.Reach, Cond: "false"}}}
-			cj := &coverJob{o: co, fr: fr, from: []string{fmt.Sprintf("%s[%d]", o.ID, i)}}
+			cj := &coverJob{o: co, fr: fr, from: []string{fmt.Sprintf("%s[%d] %s", o.ID, i, g.Where)}}
 			seen[key] = cj
 			out = append(out, cj)
 		}
